@@ -38,11 +38,18 @@ def _probe():
             checks_attrs = False
         except DuplicateNameError:
             checks_attrs = True
-    return full_shape, exempt, checks_attrs
+        # 4. does add_variable refuse a name whose storage key ('_' + name) is already taken?
+        c = VectorContainer(range(2))
+        try:
+            c.add_variable('attributes', 1.0)
+            checks_keys = False
+        except DuplicateNameError:
+            checks_keys = True
+    return full_shape, exempt, checks_attrs, checks_keys
 
 
 def tables():
-    full_shape, exempt, checks_attrs = _probe()
+    full_shape, exempt, checks_attrs, checks_keys = _probe()
     b = lambda x: 'true' if x else 'false'
     return [
         '/-- `VectorContainer.__setattr__` rejects a sequence whose shape is not exactly `(len(span),)` (probed). -/',
@@ -51,4 +58,6 @@ def tables():
         'def containerStrictExempt : List String := [' + ', '.join('"%s"' % x for x in exempt) + ']',
         '/-- `add_variable` raises DuplicateNameError for the name of an existing attribute (probed). -/',
         f'def containerAddVariableChecksAttrs : Bool := {b(checks_attrs)}',
+        "/-- `add_variable(name)` raises DuplicateNameError when `'_' + name` is already a key of `__dict__` (probed). -/",
+        f'def containerAddVariableChecksKeys : Bool := {b(checks_keys)}',
     ]
